@@ -10,6 +10,18 @@ CHECKS = {
    text="Every one of the 7,304,484 valid dates, every constructor triple in a superset box, every ISO week triple and every (month, nth, weekday) combination is enumerated and compared with an independent month-table calendar; for these finite domains the exploration is complete (exhaustive: true in evidence), nth_weekday with 32-bit nth is sampled by a limit-biased generator.",
    note="Trusted: harness refcal.rs (walked year table + textbook leap rule, self-tested at start-up). crates/jiff-static's copy of itime.rs is exercised by C18, not here.",
    design="DESIGN.md section 3 C01"),
+ "C02": dict(
+   technique="boundary-exhaustive sweep + proptest generation against an i128 floor-div / walked-calendar oracle; round-trip and constructor/view agreement",
+   category="exploration",
+   text="All 7.3M local day boundaries (+-1ns) for a set of offsets, every second of several days for 40 offsets, all 187,199 offsets on fixed instants are enumerated; millions of limit-biased (instant, offset), (civil, offset) and constructor inputs are generated. Each is compared with the Gregorian decomposition of floor((t+o)/day) computed independently; equality of round-tripped instants is checked through ==, Ord, Hash and every unit view.",
+   note="Trusted: refcal.rs and i128 arithmetic. Random parts are sampled, not exhaustive.",
+   design="DESIGN.md section 3 C02"),
+ "C03": dict(
+   technique="differential testing against an independent RFC 8536 + POSIX TZ reader on the same bytes; structured sweep of every transition +-{1s,0.5s,1ns} plus proptest-generated probes and generated POSIX TZ strings",
+   category="exploration",
+   text="Every recorded transition of every installed and bundled zone and of synthetic zic zones, and rule-generated transitions of sampled years, are probed on both sides to the nanosecond and compared with an independent reader of the same data; generated POSIX strings extend the rule space.",
+   note="Trusted: reftz.rs (validated against zdump in the thorough tier). Excluded and counted: files whose footer contradicts their last transition; generated POSIX rules that spill over a year boundary (jiff documents year clamping).",
+   design="DESIGN.md section 3 C03"),
 }
 
 NOT_YET = {
